@@ -4,6 +4,7 @@ import (
 	"context"
 	"encoding/json"
 	"fmt"
+	"io"
 	"os"
 	"path/filepath"
 	"sort"
@@ -18,6 +19,7 @@ import (
 
 	"github.com/flant/shell-operator/pkg/hook/task_metadata"
 	htypes "github.com/flant/shell-operator/pkg/hook/types"
+	metricstorage "github.com/flant/shell-operator/pkg/metric_storage"
 	shell_operator "github.com/flant/shell-operator/pkg/shell-operator"
 	"github.com/flant/shell-operator/pkg/task"
 	"github.com/flant/shell-operator/pkg/task/queue"
@@ -999,8 +1001,12 @@ func (w *c04World) end(qn int, mode string, out *c04Out) string {
 		fc = run.real.GetFailureCount()
 	}
 	if run.kind == "exec" {
-		w.c.Oracle(fmt.Sprintf("end q=%d %s task=%d ctxs=%s sleep=%d after=%s s0=0 pay=%s", qn, ok, id, w.hookCtxs(run.start.ctxs),
-			bo.delay.Nanoseconds(), afterS, run.pay))
+		una := ""
+		if out != nil {
+			una = " unapplied=" + w.unapplied(run.hook.Name, out.Metrics)
+		}
+		w.c.Oracle(fmt.Sprintf("end q=%d %s task=%d ctxs=%s sleep=%d after=%s s0=0 pay=%s%s", qn, ok, id, w.hookCtxs(run.start.ctxs),
+			bo.delay.Nanoseconds(), afterS, run.pay, una))
 	}
 	w.c.Op(fmt.Sprintf("end q=%d %s", qn, ok), fmt.Sprintf("status=%s fc=%d sleep=%d queue=%s", status, fc,
 		bo.delay.Nanoseconds(), w.snapIds(afterSnaps)))
@@ -1022,6 +1028,79 @@ func (w *c04World) end(qn int, mode string, out *c04Out) string {
 		}
 	}
 	return status
+}
+
+// unapplied looks, right after the handler has returned, for the EFFECT of every operation of the metrics
+// file in the registry of the operator's HookMetricStorage (Gather): an operation other than "expire"
+// must be visible as a series of its name with the hook's label, unless a later "expire" of its group in
+// the same file removed it again. The answer is the number of operations without a visible effect ("-":
+// the harness cannot read the text as a stream of objects — nothing is claimed then). The documents are
+// read with encoding/json into a struct of the harness; the only knowledge about the operator used is the
+// documented meaning of the members (set/add shortcuts, expire).
+func (w *c04World) unapplied(hook, text string) string {
+	type mop struct {
+		Name, Group, Action string
+		Set, Add, Value     *float64
+	}
+	var ops []mop
+	dec := json.NewDecoder(strings.NewReader(text))
+	for {
+		var o mop
+		err := dec.Decode(&o)
+		if err != nil {
+			if err == io.EOF {
+				break
+			}
+			return "-"
+		}
+		if o.Set != nil && o.Add == nil {
+			o.Action = "set"
+		}
+		if o.Add != nil && o.Set == nil {
+			o.Action = "add"
+		}
+		ops = append(ops, o)
+	}
+	if len(ops) == 0 {
+		return "0"
+	}
+	visible := map[string]bool{}
+	ms, isMS := w.op.HookMetricStorage.(*metricstorage.MetricStorage)
+	if !isMS || ms.Registry == nil {
+		return "-"
+	}
+	mfs, err := ms.Registry.Gather()
+	if err != nil {
+		return "-"
+	}
+	for _, mf := range mfs {
+		for _, m := range mf.GetMetric() {
+			for _, lp := range m.GetLabel() {
+				if lp.GetName() == "hook" && (lp.GetValue() == hook || lp.GetValue() == hook+".sh") {
+					visible[mf.GetName()] = true
+				}
+			}
+		}
+	}
+	n := 0
+	for i, o := range ops {
+		if o.Action == "expire" && o.Group != "" {
+			continue // its effect is an absence
+		}
+		expiredLater := false
+		for _, l := range ops[i+1:] {
+			if o.Group != "" && l.Group == o.Group && l.Action == "expire" {
+				expiredLater = true
+			}
+		}
+		if expiredLater {
+			continue
+		}
+		if o.Name == "" || !visible[o.Name] {
+			n++
+		}
+	}
+	return strconv.Itoa(n)
 }
 
 // c04OkArg is how the outcome of a run is stated on the `end` lines: ok=<0|1> for the fixed modes,
